@@ -453,12 +453,22 @@ def judge(case: dict, d: str, rc: int, log: list[dict], records: list[Record | N
 
         # visible rows --------------------------------------------------------------------------------------
         visible: dict[str, list[tuple]] = {}
+        # (a file that opens but whose tables cannot be read has not "opened again without error": every start of the
+        # overlays loads these rows first - AttestationCommunity.__init__ calls get_all(), PseudonymManager the tokens)
         if idb is not None:
             for table, (cols, _) in ID_TABLES.items():
-                visible[table] = [tuple(r) for r in idb.execute(f"SELECT {cols} FROM {table}")]  # noqa: S608
+                try:
+                    visible[table] = [tuple(r) for r in idb.execute(f"SELECT {cols} FROM {table}")]  # noqa: S608
+                except Exception as e:  # noqa: BLE001
+                    fail("F1", _site(e, "identity.load"), f"the identity database opens, but reading table {table} raises "
+                                                          f"{type(e).__name__}: {e}")
         if wdb is not None:
-            visible[WALLET_TABLE] = [tuple(r) for r in wdb.execute(
-                f"SELECT hash, blob, key, id_format FROM {WALLET_TABLE}")]  # noqa: S608
+            try:
+                visible[WALLET_TABLE] = [tuple(r) for r in wdb.execute(
+                    f"SELECT hash, blob, key, id_format FROM {WALLET_TABLE}")]  # noqa: S608
+            except Exception as e:  # noqa: BLE001
+                fail("F1", _site(e, "wallet.load"), f"the wallet database opens, but its records cannot be loaded: "
+                                                    f"{type(e).__name__}: {e}")
         key_cols = {t: kc for t, (_, kc) in ID_TABLES.items()}
         key_cols[WALLET_TABLE] = (0,)
 
